@@ -27,3 +27,59 @@ def num_min(a, b):
 
 def num_max(a, b):
     return b if b > a else a
+
+
+def same_timeout_values(a, b):
+    return a._connect is b._connect and a._read is b._read and a.total is b.total
+
+
+def is_socket_timeout(err):
+    return isinstance(err, K("builtins.TimeoutError"))
+
+
+def has_blocking_errno(err):
+    return isinstance(err, K("builtins.OSError")) and err.errno in _blocking_errnos
+
+
+def effective_timeout(pool, timeout):
+    """a request-level timeout fully overrides the pool's"""
+    return pool.timeout if timeout is _DEFAULT_TIMEOUT else timeout
+
+
+def eff_connect(pool, timeout):
+    e = effective_timeout(pool, timeout)
+    return e._connect if isinstance(e, Timeout) else e
+
+
+def eff_read(pool, timeout):
+    e = effective_timeout(pool, timeout)
+    return e._read if isinstance(e, Timeout) else e
+
+
+def eff_total(pool, timeout):
+    e = effective_timeout(pool, timeout)
+    return e.total if isinstance(e, Timeout) else None
+
+
+def spec_connect(connect, total):
+    """min(connect, total) with None = no limit and 'unset' = socket default"""
+    return connect if total is None else (total if unset(connect) else num_min(connect, total))
+
+
+def expected_connect_timeout(pool, timeout):
+    return spec_connect(eff_connect(pool, timeout), eff_total(pool, timeout))
+
+
+def response_wait_ok(applied, eff, elapsed):
+    """the timeout applied to the response wait, given the effective (connect, read, total) and the time spent since start_connect"""
+    read = eff._read if isinstance(eff, Timeout) else eff
+    total = eff.total if isinstance(eff, Timeout) else None
+    return (implies(total is None and not unset(read), applied is read)
+            and implies(total is None and read is None, applied is None)
+            and implies(total is not None, is_num(applied) and applied > 0 and applied <= total - elapsed
+                        and implies(not unset(read), applied <= read)
+                        and (applied == total - elapsed or (not unset(read) and applied == read))))
+
+
+def same_num(a, b):
+    return a is b or (is_num(a) and is_num(b) and a == b)
